@@ -503,3 +503,6 @@ V("seed-core-cache", "fault", "C03", P + "convex_spheropolyhedron.py",
 V("seed-rw-face-area-float", "rewrite", "C02", P + "polyhedron.py", "            areas[i] = poly.area", "            areas[i] = float(poly.area)")
 V("c04-align-inverse", "fault", "C04", P + "polygon.py", "    return np.dot(points, rotation.T), rotation", "    return np.dot(points, rotation), rotation", rule="FRAME-0")
 V("c04-align-returns-transpose", "fault", "C04", P + "polygon.py", "    return np.dot(points, rotation.T), rotation", "    return np.dot(points, rotation.T), rotation.T", rule="FRAME")
+V("rw-all-hoomd-try-finally", "rewrite", ALLP, P + "sphere.py",
+  "        self.centroid = np.array([0, 0, 0])\n        data = self.to_json([\"diameter\", \"centroid\", \"volume\", \"inertia_tensor\"])\n        hoomd_dict = _map_dict_keys(data, key_mapping=_hoomd_dict_mapping)\n\n        self.centroid = old_centroid\n        return hoomd_dict",
+  "        self.centroid = np.array([0, 0, 0])\n        try:\n            data = self.to_json([\"diameter\", \"centroid\", \"volume\", \"inertia_tensor\"])\n            return _map_dict_keys(data, key_mapping=_hoomd_dict_mapping)\n        finally:\n            self.centroid = old_centroid")
